@@ -256,6 +256,86 @@ def case_mass_inverse(log, generalised):
 
 
 # ---------------------------------------------------------------------------
+# mass decoupling as applied by msbar_masses.evolve: up-then-down and down-then-up round trips
+# ---------------------------------------------------------------------------
+def case_mass_roundtrip(log, order):
+    """The real evolve across one threshold and back (reference ON the wall, so only the matching factors act).  The stand-in coupling object
+    returns a_s^(nf+1) = A (jet) and a_s^(nf) = A * zeta_g^2(A, L) -- the real downward coupling table -- so that a factor expanded in the coupling
+    of the wrong patch is visible: m^2 after the round trip = m^2 (1 + O(A^order))."""
+    from . import C18 as K
+
+    mm, cpl = K._load()
+    K._install_lifted_up(mm)
+    log.encode(mm.evolve, mm.compute_matching_coeffs_up.__wrapped__, mm.compute_matching_coeffs_down, cpl.compute_matching_coeffs_down)
+    jetmod.set_cap(order + 1)
+    D = Decider(log)
+
+    def mk(nfl):
+        def run():
+            L = SR.var("L")
+            Ls = [SR.var("L0"), SR.var("L1"), SR.var("L2")]
+            Ls[nfl - 3] = L
+            alpha = SR.var("alpha")
+            assume(alpha, ">0")
+            A = Jet.lam() * alpha
+            dtab = _exact(cpl.compute_matching_coeffs_down("MSBAR", SR(nfl)))
+            a_low = _apply(A, dtab, L, order)
+            avals = {n: A for n in (3, 4, 5, 6)}
+            avals[nfl] = a_low
+            xif2 = SR.var("xif2")
+            assume(xif2, ">0")
+            rp = (MOD, "replay_mass_roundtrip", {"order": order, "nfl": nfl})
+            for tag, (n1, n2) in (("up then down", (nfl, nfl + 1)), ("down then up", (nfl + 1, nfl))):
+                m1, _sc, _st = K._run_evolve(mm, order, n1, n2, avals, Ls, xif2, SR(1))
+                m2, _sc, _st = K._run_evolve(mm, order, n2, n1, avals, Ls, xif2, m1)
+                d = _as_jet(m2) - 1
+                if d.prec < order:
+                    raise EngineError("round trip known only to O(a^%d)" % d.prec)
+                for k in range(0, order):
+                    v = prove_zero(d._known(k), "evolve order %d threshold %d|%d, %s: a^%d coefficient of m^2_out/m^2_in - 1 == 0" % (order, nfl, nfl + 1, tag, k))
+                    D(v, key="evolve:roundtrip", replay=rp, sampler=_sampler)
+            log.twin("domain")
+            log.collect_ctx()
+
+        return run
+
+    for nfl in (3, 4, 5):
+        _r, pm = explore(mk(nfl))
+        log.path_stats(pm)
+
+
+def replay_mass_roundtrip(point, order, nfl):
+    """real evolve with a real Couplings object (MSBAR), reference on the mass-evolution wall, up and back down; the defect must vanish like a^order."""
+    import math
+    from eko import msbar_masses as mm
+    from .C18 import _real_sc
+
+    L = float(point.get("L", 0.6))
+    if abs(L) < 0.2 or abs(L) > 1.39:
+        L = 0.6
+    r = math.exp(L)
+    ratios = [1.0, 1.0, 1.0]
+    ratios[nfl - 3] = r
+    masses2 = [2.0, 22.0, 30000.0]
+    w = masses2[nfl - 3] * r
+    errs, As = [], []
+    for al in (0.30, 0.15, 0.075):
+        sc = _real_sc(order, "exact", 5, masses2, [1.0, 1.0, 1.0], alphas=al, mu=91.0)
+        up = mm.evolve(4.0, w, sc, ratios, 1.0, w, nf_ref=nfl, nf_to=nfl + 1)
+        back = mm.evolve(up, w, sc, ratios, 1.0, w, nf_ref=nfl + 1, nf_to=nfl)
+        errs.append(abs(back / 4.0 - 1))
+        As.append(float(sc.a(w, nfl + 1)[0]))
+    pairs = [(a, e) for a, e in zip(As, errs) if e > 1e-15]
+    if len(pairs) < 2:
+        return None
+    ex = math.log(pairs[-2][1] / pairs[-1][1]) / math.log(pairs[-2][0] / pairs[-1][0])
+    if ex < order - 0.5:
+        return {"detail": "mass evolved up and back down across the threshold %d|%d at mu^2 = %r m^2 (order %d): |m^2_out/m^2_in - 1| = %r at a_s = %r scales like a^%.2f < a^%d"
+                % (nfl, nfl + 1, r, order, errs, As, ex, order)}
+    return None
+
+
+# ---------------------------------------------------------------------------
 # replays (real code, floats, independent oracles)
 # ---------------------------------------------------------------------------
 def _mats(point, n):
@@ -413,12 +493,15 @@ def main():
                   "exact inverse: identity in a_s as a plain symbol through the shim's adjugate inverse (n <= 3)",
                   "decoupling: orders 2-4 (loop bound of Couplings.a / msbar_masses.evolve), L symbolic, nf real in [3,5]; tables generalised to free "
                   "symbols on the support of the real tables (c[1,0] = 0 for the coupling, c[1,*] = 0 for the mass) and the real tables themselves"]
+    chk.bounds.append("mass round trip through the real msbar_masses.evolve (orders 3, 4; thresholds 3|4, 4|5, 5|6; symbolic L, xif2): the stand-in coupling object returns "
+                      "a_s^(nf+1) = A and a_s^(nf) = A*zeta_g^2(A,L) (real MSBAR downward table), m^2_out/m^2_in - 1 = O(A^order) in both orders of traversal")
     chk.out_of_claim = ["floating-point conditioning of numpy.linalg.inv (LAPACK) -- replaced by the exact adjugate",
                         "matrix sizes other than 2 and 3; complex entries are covered because the identities are polynomial (real symbols suffice)",
-                        "how the factors are applied inside Couplings.a and msbar_masses.evolve (C16, C18)"]
+                        "which table / logarithm Couplings.a and msbar_masses.evolve pick per threshold (C16, C18); here only that their round trips close"]
     preimport("eko.evolution_operator.quad_ker", "eko.msbar_masses")
 
-    chk.stubs = ["numpy.linalg.inv -> exact adjugate/determinant inverse (symx shim)"]
+    chk.stubs = ["numpy.linalg.inv -> exact adjugate/determinant inverse (symx shim)",
+                 "mass round trip: the Couplings object handed to evolve -> recorder returning symbolic a_s per requested nf (a, a_s, a_em); thresholds_ratios -> tokens (value 1, symbolic log)"]
     chk.assumptions = ["matrix entries real symbols: polynomial identities over R extend to C",
                        "decoupling update rule a' = a (1 + sum_n sum_l c[n,l] a^n L^l), m' = m (1 + sum c[n,l] a^n L^l) as in Couplings.a / msbar_masses.evolve"]
     chk.case("ome.expanded.n2", case_ome_expanded, n=2, ms=(0, 1, 2, 3))
@@ -432,6 +515,8 @@ def main():
             chk.case("coupling.%s.%s" % (scheme, "generalised" if g else "real"), case_coupling_inverse, scheme=scheme, generalised=g)
     for g in (True, False):
         chk.case("mass.%s" % ("generalised" if g else "real"), case_mass_inverse, generalised=g)
+    for order in (3, 4):
+        chk.case("mass.evolve.roundtrip.o%d" % order, case_mass_roundtrip, order=order)
     return chk.run()
 
 
